@@ -269,3 +269,6 @@ def _check_arsc_getters(ctx, repo, folder, m, hooks):
                             why = "mantissa is %s, Android takes the signed mantissa %s" % (bf.describe(), mant.describe())
             ctx.check("arsc-getter", inst, good, f, "%s: %s" % (gname, why[:100]), "%s formats the datum wrongly: %s" % (gname, why), witness=_dwit(asg))
     ctx.floor("getter_paths", 20)
+
+
+MUTATION_TARGETS = [(AXML, "format_value"), (AXML, "complexToFloat"), (AXML, "ARSCParser.get_resource_dimen"), (AXML, "ARSCParser.get_resource_color")]
